@@ -104,13 +104,16 @@ def itemParamsOf (doc op : Json) : List Json := getArr (getD doc "items" Json.nu
 def overridden (op p : Json) : Bool :=
   (getArr op "params").any (fun q => getStr q "in" == getStr p "in" && getStr q "name" == getStr p "name")
 
-def opSchemas (doc op : Json) (k : String) : List Json :=
+def opSchemas1 (doc op : Json) (k : String) : List Json :=
   match k with
   | "vreq" => ((itemParamsOf doc op).filter (fun p => !overridden op p)).map (fun p => getD p "schema" Json.null) ++
               (getArr op "params").map (fun p => getD p "schema" Json.null) ++
               (if isNull op "body" then [] else [getD (getD op "body" Json.null) "schema" Json.null])
   | "vresp" => if isNull op "resp" then [] else [getD (getD op "resp" Json.null) "schema" Json.null]
   | _ => []
+
+def opSchemas (doc op : Json) (k : String) : List Json :=
+  if k == "mw" then opSchemas1 doc op "vreq" ++ opSchemas1 doc op "vresp" else opSchemas1 doc op k
 
 def callFeat (doc : Json) (call : Json) : Feat :=
   let k := getStr call "k"
@@ -122,14 +125,15 @@ def callFeat (doc : Json) (call : Json) : Feat :=
   schemas.foldl (fun acc s => acc.merge (schemaFeat (getD doc "schemas" Json.null) s)) {}
 
 def parseKind : String → OpKind
-  | "frg" => .frg | "frl" => .frl | "vreq" => .vreq | "vresp" => .vresp | "visit" => .visit | _ => .gen
+  | "frg" => .frg | "frl" => .frl | "vreq" => .vreq | "vresp" => .vresp | "visit" => .visit | "mw" => .mw | _ => .gen
 
 def kindStr : OpKind → String
-  | .frg => "frg" | .frl => "frl" | .vreq => "vreq" | .vresp => "vresp" | .visit => "visit" | .gen => "gen"
+  | .frg => "frg" | .frl => "frl" | .vreq => "vreq" | .vresp => "vresp" | .visit => "visit" | .gen => "gen" | .mw => "mw"
 
 def defaultsOn (call : Json) : Bool :=
   match getStr call "k" with
   | "vreq" => !getBool call "skipDefaults"
+  | "mw" => true
   | "visit" => let o := strs (getArr call "opts"); o.contains "defaults" && (o.contains "asreq" || o.contains "asrep")
   | _ => false
 
@@ -177,8 +181,8 @@ def handle (j : Json) : Json :=
       item := if routed c then indexOf paths (getStr (opOf c) "path") else 0,
       itemParams := if routed c then (itemParamsOf doc (opOf c)).length else 0,
       ownParams := if routed c then (getArr (opOf c) "params").length else 0,
-      registries := !f.formats.isEmpty || (getStr c "k" == "vreq" && routed c && !isNull (opOf c) "body" && !getBool c "exBody") ||
-                    getStr c "k" == "vresp" })
+      registries := !f.formats.isEmpty || ((getStr c "k" == "vreq" || getStr c "k" == "mw") && routed c && !isNull (opOf c) "body" && !getBool c "exBody") ||
+                    getStr c "k" == "vresp" || getStr c "k" == "mw" })
   let cm : CaseM := { ops := ops, g := getNat j "g", per := getNat j "per", sched := getNat j "sched" }
   let out := outcome cm
   let kinds := (ops.map (fun o => kindStr o.kind)).foldl (fun acc k => insertSorted k acc) []
@@ -206,12 +210,15 @@ def handle (j : Json) : Json :=
     (let fs := dedup (feats.flatMap (·.formats))
      (if fs.isEmpty then [] else ["registry.format"]) ++
      (if fs.any (fun f => f == "c15fmt" || f == "c15even") then ["registry.format.custom"] else [])) ++
-    (let mts := dedup ((calls.filter (fun c => getStr c "k" == "vreq" && routed c && !isNull (opOf c) "body")).map
+    (let mts := dedup ((calls.filter (fun c => (getStr c "k" == "vreq" || getStr c "k" == "mw") && routed c && !isNull (opOf c) "body")).map
                   (fun c => getStr (getD (opOf c) "body" Json.null) "mt"))
      mts.map (fun m => s!"registry.bodyDecoder.{m}")) ++
     (if calls.any (fun c => getStr c "k" == "gen" && (strs (getArr c "opts")).contains "customizer") then ["gen.customizer"] else []) ++
+    (if isObj (getD doc "itemServers" Json.null) then ["doc.pathItemServers"] else []) ++
+    (if calls.any (fun c => getStr c "k" == "mw" && getBool c "strict") then ["middleware.strict"] else []) ++
+    (if calls.any (fun c => getStr c "k" == "mw" && !getBool c "strict") then ["middleware.warn"] else []) ++
     -- slices of the shared document: path-level parameter lists, and which of them were decoded with spare capacity
-    (let vq := calls.filter (fun c => getStr c "k" == "vreq" && routed c && !getBool c "miss")
+    (let vq := calls.filter (fun c => (getStr c "k" == "vreq" || getStr c "k" == "mw") && routed c && !getBool c "miss")
      let withItem := vq.filter (fun c => !(itemParamsOf doc (opOf c)).isEmpty)
      (if withItem.isEmpty then [] else ["slices.pathLevelParams"]) ++
      (if withItem.any (fun c => spareCap (itemParamsOf doc (opOf c)).length) then ["slices.pathLevelParams.spareCapacity"] else []) ++
